@@ -109,12 +109,14 @@ def compare_case(script, impl, model):
     return mism
 
 
-def run_pair(ctx, scripts, variant="plain", exact=False, timeout=40, model=True):
+def run_pair(ctx, scripts, variant="plain", exact=False, timeout=40, model=True, model_scripts=None):
+    """model_scripts: what the model is asked instead (same length): scripts whose specification cannot be evaluated (a gap of 2^62
+    samples) are replaced by every op answered `?` = not compared"""
     scratch = os.path.join(ctx.tmp, "scratch_" + variant)
     os.makedirs(scratch, exist_ok=True)
     args = [scratch] + (["exact"] if exact else []) + ["timeout=%d" % timeout]
     impl = vlib.run_c(variant, "prog", scripts, args=args, timeout=3000)
-    mod = vlib.run_model("prog", scripts, timeout=3000) if model else [""] * len(scripts)
+    mod = vlib.run_model("prog", model_scripts or scripts, timeout=3000) if model else [""] * len(scripts)
     return impl, mod
 
 
@@ -177,11 +179,13 @@ def run_prog_property(ctx, prop_files, gen_case, classes, n_quick, n_thorough, r
     n = n_quick if ctx.tier == "quick" else n_thorough
     corpus = load_corpus(ctx.prop)
     # recorded known findings of this property whose replay is a prog script are replayed first: still failing -> KNOWN-FINDING
-    known_cases = [(k["replay"], {"known": k["signature"], "dist": ["known_finding_replay"]}) for k in ctx.known
+    known_cases = [(k["replay"], {"known": k["signature"], "dist": ["known_finding_replay"], "no_model": bool(k.get("no_model"))}) for k in ctx.known
                    if str(k.get("replay", "")).startswith(("wopen", "topen")) and "image" not in k["replay"]]
     cases = known_cases + [(s, {"corpus": True}) for s in corpus] + [gen_case(ctx.rng, ctx.tier) for _ in range(n)]
     scripts = [c[0] for c in cases]
-    impl, mod = run_pair(ctx, scripts, variant, exact=exact, timeout=timeout)
+    no_model = [bool(c[1].get("no_model")) for c in cases]
+    impl, mod = run_pair(ctx, scripts, variant, exact=exact, timeout=timeout, model_scripts=[("wopen" if nm else s) for s, nm in zip(scripts, no_model)])
+    mod = [(";".join(o.split()[0] + " ?" for o in s.split(";") if o.split()) if nm else m) for s, m, nm in zip(scripts, mod, no_model)]
     nviol = 0
     dist = {}
     for (script, meta), a, m in zip(cases, impl, mod):
